@@ -188,6 +188,14 @@ func c11LocalValueStore(info *types.Info, body *ast.BlockStmt, lhs ast.Expr) boo
 
 // c11IsFreshExpr: the expression creates a new object (&T{...}, T{...}, new(T), make(...)).
 func c11IsFreshExpr(info *types.Info, e ast.Expr) bool {
+	return c11IsFreshExprD(info, nil, e, 0)
+}
+
+// c11IsFreshExprD additionally accepts a call of a same-package constructor (decls != nil).
+func c11IsFreshExprD(info *types.Info, decls map[*types.Func]*ast.FuncDecl, e ast.Expr, depth int) bool {
+	if c11CtorCall(info, decls, e, depth) {
+		return true
+	}
 	switch x := ast.Unparen(e).(type) {
 	case *ast.UnaryExpr:
 		if x.Op == token.AND {
@@ -209,6 +217,10 @@ func c11IsFreshExpr(info *types.Info, e ast.Expr) bool {
 // c11FreshLocal: obj is a variable declared inside body and every assignment to it in
 // body takes a freshly created object.
 func c11FreshLocal(info *types.Info, body *ast.BlockStmt, obj types.Object) bool {
+	return c11FreshLocalD(info, nil, body, obj, 0)
+}
+
+func c11FreshLocalD(info *types.Info, decls map[*types.Func]*ast.FuncDecl, body *ast.BlockStmt, obj types.Object, depth int) bool {
 	if obj == nil || !(body.Pos() <= obj.Pos() && obj.Pos() < body.End()) {
 		return false
 	}
@@ -222,8 +234,10 @@ func c11FreshLocal(info *types.Info, body *ast.BlockStmt, obj types.Object) bool
 					continue
 				}
 				n++
-				if len(s.Rhs) == len(s.Lhs) && (s.Tok == token.DEFINE || s.Tok == token.ASSIGN) && c11IsFreshExpr(info, s.Rhs[i]) {
+				if len(s.Rhs) == len(s.Lhs) && (s.Tok == token.DEFINE || s.Tok == token.ASSIGN) && c11IsFreshExprD(info, decls, s.Rhs[i], depth) {
 					good++
+				} else if len(s.Rhs) == 1 && len(s.Lhs) == 2 && i == 0 && s.Tok == token.DEFINE && c11CtorCall(info, decls, s.Rhs[0], depth) {
+					good++ // v, err := newT(...)
 				}
 			}
 		case *ast.ValueSpec:
@@ -235,7 +249,7 @@ func c11FreshLocal(info *types.Info, body *ast.BlockStmt, obj types.Object) bool
 				if len(s.Values) == 0 {
 					// var x T (zero value struct) is fresh; var x *T is nil (stores would panic, not mutate)
 					good++
-				} else if i < len(s.Values) && c11IsFreshExpr(info, s.Values[i]) {
+				} else if i < len(s.Values) && c11IsFreshExprD(info, decls, s.Values[i], depth) {
 					good++
 				}
 			}
@@ -385,19 +399,19 @@ func c11Bump(st *flow.State, ev string) {
 // R-C11-1
 
 func c11SingleLoad(c *core.Ctx) {
-	instF := structField(c, hs, "mux", "inst")
-	pkg := c.Prog.Pkg(hs)
-	muxT := namedType(c, hs, "mux")
-	miT := namedType(c, hs, "muxInstance")
-	if instF == nil || pkg == nil || muxT == nil || miT == nil {
+	r := c11ResolveRouter(c)
+	if r == nil {
 		return
 	}
+	pkg, instF, muxT, miT, serveInst := r.pkg, r.instF, r.muxT, r.miT, r.serveInst
 	info := pkg.TypesInfo
+	muxN, miN := muxT.Obj().Name(), miT.Obj().Name()
+	decls := c11DeclOf(pkg)
 
-	// (a) mux.inst is only ever used as the receiver of Load / Store
+	// (a) the generation pointer is only ever used as the receiver of Load / Store
 	uses, badUse := 0, 0
 	loadsIn := map[*ast.FuncDecl][]*ast.CallExpr{}
-	storesIn := map[*ast.FuncDecl][]*ast.CallExpr{}
+	nLoads, nStores := 0, 0
 	eachFunc(c, func(p *packages.Package, fd *ast.FuncDecl) {
 		if p != pkg {
 			return
@@ -409,8 +423,9 @@ func c11SingleLoad(c *core.Ctx) {
 				okSel[ast.Unparen(ast.Unparen(call.Fun).(*ast.SelectorExpr).X).(*ast.SelectorExpr)] = true
 				if methodName(call) == "Load" {
 					loadsIn[fd] = append(loadsIn[fd], call)
+					nLoads++
 				} else {
-					storesIn[fd] = append(storesIn[fd], call)
+					nStores++
 				}
 			}
 		}
@@ -421,211 +436,213 @@ func c11SingleLoad(c *core.Ctx) {
 					if !okSel[sel] {
 						badUse++
 						c.Violate("R-C11-1", declName(p, fd)+"|mux.inst accessed only by Load/Store", pos(c, sel),
-							"the generation pointer mux.inst is used other than as the receiver of atomic Load/Store (copied, address taken, swapped): readers may then see a torn or stale generation")
+							"the generation pointer "+muxN+"."+instF.Name()+" is used other than as the receiver of atomic Load/Store (copied, address taken, swapped): readers may then see a torn or stale generation")
 					}
 				}
 			}
 			return true
 		})
 	})
-	nLoads, nStores := 0, 0
-	for _, l := range loadsIn {
-		nLoads += len(l)
-	}
-	for _, l := range storesIn {
-		nStores += len(l)
-	}
 	c.RequireCount("R-C11-1", "mux.inst.Load call sites", nLoads, 3)
 	c.RequireCount("R-C11-1", "mux.inst.Store call sites", nStores, 2)
 	if badUse == 0 {
-		c.Discharge("R-C11-1", hs+".mux.inst|accessed only by Load/Store", c.Prog.Rel(instF.Pos()), sprintf("%d uses, all receivers of atomic.Value Load/Store", uses))
+		c.Discharge("R-C11-1", hs+".mux.inst|accessed only by Load/Store", c.Prog.Rel(instF.Pos()), sprintf("%d uses of %s.%s, all receivers of atomic.Value Load/Store", uses, muxN, instF.Name()))
 	}
 
-	// (b) ServeHTTP: exactly one Load on every dispatching path, dispatch on the loaded value
-	serve := fn(c, hs, "mux", "ServeHTTP")
-	serveInst := c11MethodObj(c, hs, "muxInstance", "serveHTTP")
-	if serve == nil || serveInst == nil {
+	// (b) serving one request: at most one Load and one dispatch on any path through ServeHTTP
+	// and the same-package functions it calls; the dispatch receiver is the loaded value
+	serveFd := decls[r.serve]
+	if serveFd == nil {
+		c.Errorf("R-C11-1: anchor: %s.ServeHTTP has no body", muxN)
 		return
 	}
-	cons := fname(hs, "mux", "ServeHTTP")
-	var dispatch []*ast.CallExpr
-	for _, call := range calls(serve.Body, true) {
-		if serve.Callee(call) == serveInst {
-			dispatch = append(dispatch, call)
+	c.Count("functions_analysed", 1)
+	cons := fname(hs, muxN, "ServeHTTP")
+	loaders := c11Loaders(pkg, decls, instF)
+	loadCnt := c11NewCounter(c, pkg, decls, func(g *flow.Func, call *ast.CallExpr) bool { return c11FieldCall(g, call, instF, "Load") })
+	dispCnt := c11NewCounter(c, pkg, decls, func(g *flow.Func, call *ast.CallExpr) bool { return g.Callee(call) == serveInst })
+	dispatch := dispCnt.sites(r.serve)
+	var top []reachCall // dispatch sites outside the instance's own call tree
+	below := c11Reach(pkg, decls, serveInst)
+	for _, d := range dispatch {
+		if o, ok := info.Defs[d.Fn.Node.(*ast.FuncDecl).Name].(*types.Func); ok && !below[o] {
+			top = append(top, d)
 		}
 	}
-	if c.RequireCount("R-C11-1", "dispatch call sites ServeHTTP -> muxInstance.serveHTTP", len(dispatch), 1) {
-		res := analyze(c, serve, flow.Config{NoHavoc: true, Track: func(string) bool { return false },
-			OnCall: func(st *flow.State, call *ast.CallExpr, callee types.Object, deferred bool) {
-				if c11FieldCall(serve, call, instF, "Load") {
-					c11Bump(st, "ev:load")
-				}
-				if callee == serveInst {
-					c11Bump(st, "ev:dispatch")
-				}
-			}})
-		if res != nil {
-			var bad *flow.State
-			why := ""
-			for _, ex := range res.Exits {
-				st := ex.State
-				switch {
-				case st.Is("ev:load:2", flow.True):
-					bad, why = st, "mux.inst is loaded more than once while serving one request: a reload between the two loads makes the request use two generations (e.g. options of one, routes of the other)"
-				case st.Is("ev:dispatch:2", flow.True):
-					bad, why = st, "one request is dispatched to muxInstance.serveHTTP twice"
-				case st.Is("ev:dispatch:1", flow.True) && !st.Is("ev:load:1", flow.True):
-					bad, why = st, "the request is dispatched without loading the current generation"
-				}
-				if bad != nil {
-					break
-				}
-			}
-			c.Check(bad == nil, "R-C11-1", cons+"|generation loaded once per request", pos(c, dispatch[0]),
-				sprintf("%d exits: at most one Load of mux.inst, one dispatch", len(res.Exits)), why, witness(bad)...)
+	if c.RequireCount("R-C11-1", "dispatch call sites ServeHTTP -> "+miN+"."+serveInst.Name(), len(top), 1) {
+		nl, nd := loadCnt.max(serveFd), dispCnt.max(serveFd)
+		var w []string
+		why := ""
+		switch {
+		case nl > 1:
+			why = "the generation pointer is loaded more than once while serving one request (ServeHTTP and the functions it calls): a reload between the two loads makes the request use two generations (e.g. options of one, routes of the other)"
+			w = witness(loadCnt.wit[serveFd])
+		case nd > 1:
+			why = "one request is dispatched to " + miN + "." + serveInst.Name() + " twice"
+			w = witness(dispCnt.wit[serveFd])
 		}
-		for _, d := range dispatch {
-			ok, why := c11FromLoad(serve, d, instF), ""
+		c.Check(why == "", "R-C11-1", cons+"|generation loaded once per request", pos(c, top[0].Call),
+			sprintf("on every path through ServeHTTP and its same-package callees: at most %d Load of the generation pointer, %d dispatch", nl, nd), why, w...)
+		for _, d := range top {
+			ok, why := c11FromLoad(d.Fn, d.Call, instF, loaders), ""
 			if !ok {
-				why = "the muxInstance that serves the request is not the value returned by this request's mux.inst.Load()"
+				why = "the " + miN + " that serves the request is not the value returned by this request's Load of the generation pointer"
 			}
-			for _, a := range d.Args {
-				if tv, has := serve.Info.Types[a]; has && c11TypeReaches(tv.Type, muxT) != nil {
-					ok, why = false, "the mux itself is handed to the instance's serveHTTP: the request path can reload mux.inst a second time"
+			for _, a := range d.Call.Args {
+				if tv, has := info.Types[a]; has && c11TypeReaches(tv.Type, muxT) != nil {
+					ok, why = false, "the mux itself is handed to the instance's request method: the request path can load the generation pointer a second time"
 				}
 			}
-			c.Check(ok, "R-C11-1", cons+"|dispatch on the loaded generation", pos(c, d),
-				"the receiver of serveHTTP is the result of mux.inst.Load() and no argument leads back to the mux", why)
+			c.Check(ok, "R-C11-1", c11Uniq(c, "R-C11-1", cons+"|dispatch on the loaded generation"), pos(c, d.Call),
+				"the receiver of the request method is the result of the generation Load and no argument leads back to the mux", why)
 		}
 	}
 
 	// (c) no Load on the request path
-	decls := c11DeclOf(pkg)
-	reach := c11Reach(pkg, decls, serveInst)
-	c.RequireCount("R-C11-1", "functions on the request path below muxInstance.serveHTTP", len(reach), 5)
+	reach := below
+	c.RequireCount("R-C11-1", "functions on the request path below the instance's request method", len(reach), 5)
 	bad := 0
 	for o := range reach {
 		fd := decls[o]
 		for _, l := range loadsIn[fd] {
 			bad++
 			c.Violate("R-C11-1", declName(pkg, fd)+"|no generation load on the request path", pos(c, l),
-				"a function reachable from muxInstance.serveHTTP loads mux.inst again: after a concurrent reload the request continues with parts of a second generation")
+				"a function reachable from "+miN+"."+serveInst.Name()+" loads the generation pointer again: after a concurrent reload the request continues with parts of a second generation")
 		}
 	}
 	if bad == 0 {
-		c.Discharge("R-C11-1", fname(hs, "muxInstance", "serveHTTP")+"|no generation load on the request path", c.Prog.Rel(serveInst.Pos()),
-			sprintf("%d functions reachable from serveHTTP, none loads mux.inst", len(reach)))
+		c.Discharge("R-C11-1", fname(hs, miN, serveInst.Name())+"|no generation load on the request path", c.Prog.Rel(serveInst.Pos()),
+			sprintf("%d functions reachable from %s, none loads the generation pointer", len(reach), serveInst.Name()))
 	}
 
 	// (d) no field path from a generation type back to the mux
-	for _, tn := range []string{"muxInstance", "muxRule", "MuxPath", "route"} {
-		n := namedType(c, hs, tn)
-		if n == nil {
-			continue
+	gen := []*types.Named{miT}
+	for _, tn := range []string{"muxRule", "MuxPath", "route"} {
+		if n := namedType(c, hs, tn); n != nil {
+			gen = append(gen, n)
 		}
+	}
+	for _, n := range gen {
 		p := c11TypeReaches(n.Underlying(), muxT)
-		c.Check(p == nil, "R-C11-1", hs+"."+tn+"|no field path back to mux", c.Prog.Rel(n.Obj().Pos()),
-			"no chain of struct fields leads from the generation to the mux", "field path "+tn+strings.Join(p, "")+" lets the request path reach mux.inst and load another generation")
+		c.Check(p == nil, "R-C11-1", hs+"."+n.Obj().Name()+"|no field path back to mux", c.Prog.Rel(n.Obj().Pos()),
+			"no chain of struct fields leads from the generation to the mux", "field path "+n.Obj().Name()+strings.Join(p, "")+" lets the request path reach the generation pointer and load another generation")
 	}
 
-	// (e) the pipeline handler is resolved once per request
-	sh := fn(c, hs, "muxInstance", "serveHTTP")
-	if sh != nil {
-		var gets []*ast.CallExpr
-		for _, call := range calls(sh.Body, true) {
-			if ifaceMethodCall(sh, call, "pkg/context", "MuxMapper", "GetHandler") {
-				gets = append(gets, call)
-			}
-		}
-		if c.RequireCount("R-C11-1", "MuxMapper.GetHandler call sites in muxInstance.serveHTTP", len(gets), 1) {
-			res := analyze(c, sh, flow.Config{NoHavoc: true, Track: func(string) bool { return false },
-				OnCall: func(st *flow.State, call *ast.CallExpr, callee types.Object, deferred bool) {
-					for _, g := range gets {
-						if g == call {
-							c11Bump(st, "ev:get")
-						}
-					}
-				}})
-			if res != nil {
-				var badSt *flow.State
-				for _, ex := range res.Exits {
-					if ex.State.Is("ev:get:2", flow.True) {
-						badSt = ex.State
-						break
-					}
-				}
-				c.Check(badSt == nil, "R-C11-1", fname(hs, "muxInstance", "serveHTTP")+"|pipeline handler resolved once", pos(c, gets[0]),
-					sprintf("%d exits, GetHandler evaluated at most once on each", len(res.Exits)),
-					"the backend pipeline is looked up more than once for one request: an update or delete between the lookups gives the request two pipeline generations (or a nil handler)", witness(badSt)...)
-			}
+	// (e) the pipeline handler is resolved once per request (over the request method and its callees)
+	if shFd := decls[serveInst]; shFd != nil {
+		getCnt := c11NewCounter(c, pkg, decls, func(g *flow.Func, call *ast.CallExpr) bool {
+			return ifaceMethodCall(g, call, "pkg/context", "MuxMapper", "GetHandler")
+		})
+		gets := getCnt.sites(serveInst)
+		if c.RequireCount("R-C11-1", "MuxMapper.GetHandler call sites below the instance's request method", len(gets), 1) {
+			n := getCnt.max(shFd)
+			c.Check(n <= 1, "R-C11-1", fname(hs, miN, serveInst.Name())+"|pipeline handler resolved once", pos(c, gets[0].Call),
+				sprintf("GetHandler is evaluated at most once on every path (%d site(s) in the call tree)", len(gets)),
+				"the backend pipeline is looked up more than once for one request: an update or delete between the lookups gives the request two pipeline generations (or a nil handler)", witness(getCnt.wit[shFd])...)
 		}
 	}
 	gh := fn(c, "pkg/object/trafficcontroller", "Namespace", "GetHandler")
-	pipesF := structField(c, "pkg/object/trafficcontroller", "Namespace", "pipelines")
-	if gh != nil && pipesF != nil {
-		n := 0
-		for _, call := range calls(gh.Body, true) {
-			if c11FieldCall(gh, call, pipesF) {
-				n++
+	if gh != nil {
+		var maps []*types.Var
+		for _, rg := range c11Registries(c) {
+			if rg.owner == "Namespace" {
+				maps = append(maps, rg.field)
 			}
 		}
-		if c.RequireCount("R-C11-1", "Namespace.pipelines accesses in Namespace.GetHandler", n, 1) {
-			res := analyze(c, gh, flow.Config{NoHavoc: true, Track: func(string) bool { return false },
-				OnCall: func(st *flow.State, call *ast.CallExpr, callee types.Object, deferred bool) {
-					if c11FieldCall(gh, call, pipesF) {
-						c11Bump(st, "ev:get")
-					}
-				}})
-			if res != nil {
-				var badSt *flow.State
-				for _, ex := range res.Exits {
-					if ex.State.Is("ev:get:2", flow.True) {
-						badSt = ex.State
-						break
-					}
+		tcPkg := c.Prog.Pkg("pkg/object/trafficcontroller")
+		tcDecls := c11DeclOf(tcPkg)
+		isAcc := func(g *flow.Func, call *ast.CallExpr) bool {
+			for _, m := range maps {
+				if c11FieldCall(g, call, m) {
+					return true
 				}
-				c.Check(badSt == nil, "R-C11-1", fname("pkg/object/trafficcontroller", "Namespace", "GetHandler")+"|entity loaded once", pos(c, gh.Body),
-					"the pipelines map is consulted at most once per lookup", "the pipelines map is consulted twice in one lookup: the existence test and the returned handler may belong to different generations (nil entity after a delete)", witness(badSt)...)
 			}
+			return false
+		}
+		cnt := c11NewCounter(c, tcPkg, tcDecls, isAcc)
+		ghObj, _ := tcPkg.TypesInfo.Defs[gh.Node.(*ast.FuncDecl).Name].(*types.Func)
+		if ghObj != nil && c.RequireCount("R-C11-1", "registry map accesses in Namespace.GetHandler", len(cnt.sites(ghObj)), 1) {
+			n := cnt.max(gh.Node.(*ast.FuncDecl))
+			c.Check(n <= 1, "R-C11-1", fname("pkg/object/trafficcontroller", "Namespace", "GetHandler")+"|entity loaded once", pos(c, gh.Body),
+				"the pipelines map is consulted at most once per lookup", "the pipelines map is consulted twice in one lookup: the existence test and the returned handler may belong to different generations (nil entity after a delete)", witness(cnt.wit[gh.Node.(*ast.FuncDecl)])...)
 		}
 	}
 }
 
-// c11FromLoad: the receiver of call is (a type assertion of) mux.inst.Load() or a local
-// variable only ever assigned from it.
-func c11FromLoad(f *flow.Func, call *ast.CallExpr, instF *types.Var) bool {
-	sel, ok := ast.Unparen(call.Fun).(*ast.SelectorExpr)
-	if !ok {
-		return false
-	}
-	var isLoad func(e ast.Expr) bool
-	isLoad = func(e ast.Expr) bool {
-		switch x := ast.Unparen(e).(type) {
-		case *ast.TypeAssertExpr:
-			return isLoad(x.X)
-		case *ast.CallExpr:
-			return c11FieldCall(f, x, instF, "Load")
+// c11Loaders: same-package functions every return of which yields (a type assertion of)
+// the generation Load — `func (m *mux) current() *muxInstance`.
+func c11Loaders(pkg *packages.Package, decls map[*types.Func]*ast.FuncDecl, instF *types.Var) map[*types.Func]bool {
+	out := map[*types.Func]bool{}
+	for o, fd := range decls {
+		if fd.Type.Results == nil || len(fd.Type.Results.List) != 1 {
+			continue
 		}
-		return false
+		f := flow.NewFunc(pkg, fd)
+		n, good := 0, 0
+		ast.Inspect(fd.Body, func(x ast.Node) bool {
+			switch s := x.(type) {
+			case *ast.FuncLit:
+				return false
+			case *ast.ReturnStmt:
+				n++
+				if len(s.Results) == 1 && c11IsLoadExpr(f, s.Results[0], instF, nil) {
+					good++
+				} else if len(s.Results) == 1 {
+					if id, ok := ast.Unparen(s.Results[0]).(*ast.Ident); ok && c11OnlyFromLoad(f, id, instF, nil) {
+						good++
+					}
+				}
+			}
+			return true
+		})
+		if n > 0 && n == good {
+			out[o] = true
+		}
 	}
-	if isLoad(sel.X) {
-		return true
+	return out
+}
+
+func c11IsLoadExpr(f *flow.Func, e ast.Expr, instF *types.Var, loaders map[*types.Func]bool) bool {
+	switch x := ast.Unparen(e).(type) {
+	case *ast.TypeAssertExpr:
+		return c11IsLoadExpr(f, x.X, instF, loaders)
+	case *ast.CallExpr:
+		if c11FieldCall(f, x, instF, "Load") {
+			return true
+		}
+		if callee, ok := f.Callee(x).(*types.Func); ok && loaders[callee.Origin()] {
+			return true
+		}
 	}
-	id, ok := ast.Unparen(sel.X).(*ast.Ident)
-	if !ok {
-		return false
-	}
+	return false
+}
+
+// c11OnlyFromLoad: the local variable is only ever assigned from the generation Load.
+func c11OnlyFromLoad(f *flow.Func, id *ast.Ident, instF *types.Var, loaders map[*types.Func]bool) bool {
 	obj := f.Info.Uses[id]
+	if obj == nil {
+		return false
+	}
 	n, good := 0, 0
 	ast.Inspect(f.Body, func(x ast.Node) bool {
-		if as, ok := x.(*ast.AssignStmt); ok {
+		switch as := x.(type) {
+		case *ast.AssignStmt:
 			for i, l := range as.Lhs {
 				if lid, ok := l.(*ast.Ident); ok && (f.Info.Defs[lid] == obj || f.Info.Uses[lid] == obj) {
 					n++
-					if len(as.Rhs) == len(as.Lhs) && isLoad(as.Rhs[i]) {
+					if len(as.Rhs) == len(as.Lhs) && c11IsLoadExpr(f, as.Rhs[i], instF, loaders) {
 						good++
-					} else if len(as.Rhs) == 1 && len(as.Lhs) == 2 && i == 0 && isLoad(as.Rhs[0]) {
+					} else if len(as.Rhs) == 1 && len(as.Lhs) == 2 && i == 0 && c11IsLoadExpr(f, as.Rhs[0], instF, loaders) {
 						good++ // v, ok := Load().(*T)
+					}
+				}
+			}
+		case *ast.ValueSpec:
+			for i, lid := range as.Names {
+				if f.Info.Defs[lid] == obj {
+					n++
+					if i < len(as.Values) && c11IsLoadExpr(f, as.Values[i], instF, loaders) {
+						good++
 					}
 				}
 			}
@@ -635,16 +652,41 @@ func c11FromLoad(f *flow.Func, call *ast.CallExpr, instF *types.Var) bool {
 	return n > 0 && n == good
 }
 
+// c11FromLoad: the receiver of call is (a type assertion of) the generation Load, a call of
+// a loader helper, or a local variable only ever assigned from one of these.
+func c11FromLoad(f *flow.Func, call *ast.CallExpr, instF *types.Var, loaders map[*types.Func]bool) bool {
+	sel, ok := ast.Unparen(call.Fun).(*ast.SelectorExpr)
+	if !ok {
+		return false
+	}
+	if c11IsLoadExpr(f, sel.X, instF, loaders) {
+		return true
+	}
+	id, ok := ast.Unparen(sel.X).(*ast.Ident)
+	return ok && c11OnlyFromLoad(f, id, instF, loaders)
+}
+
 // ---------------------------------------------------------------------------------------
 // R-C11-2 (router generation)
 
+type c11FnInfo struct {
+	fd     *ast.FuncDecl
+	f      *flow.Func
+	stores []c11Store
+	pubs   []*ast.CallExpr
+	res    *flow.Result
+	ran    bool
+}
+
 func c11MuxImmutable(c *core.Ctx) {
-	pkg := c.Prog.Pkg(hs)
-	instF := structField(c, hs, "mux", "inst")
-	if pkg == nil || instF == nil {
+	r := c11ResolveRouter(c)
+	if r == nil {
 		return
 	}
-	genTypes := []string{"muxInstance", "muxRule", "MuxPath", "route"}
+	pkg, instF := r.pkg, r.instF
+	info := pkg.TypesInfo
+	miN := r.miT.Obj().Name()
+	genTypes := []string{miN, "muxRule", "MuxPath", "route"}
 	fields := c11FieldsOf(c, hs, genTypes...)
 	whole := map[*types.Named]bool{}
 	for _, tn := range genTypes {
@@ -653,161 +695,303 @@ func c11MuxImmutable(c *core.Ctx) {
 		}
 	}
 	if len(fields) < 20 {
-		c.Errorf("R-C11-2: anchor: expected the fields of muxInstance/muxRule/MuxPath/route, found %d", len(fields))
+		c.Errorf("R-C11-2: anchor: expected the fields of %s/muxRule/MuxPath/route, found %d", miN, len(fields))
 		return
 	}
-	nStores := 0
-	nPub := 0
-	var files []*ast.File
-	files = append(files, pkg.Syntax...)
-	sort.Slice(files, func(i, j int) bool { return files[i].Pos() < files[j].Pos() })
-	for _, file := range files {
-		for _, d := range file.Decls {
-			fd, ok := d.(*ast.FuncDecl)
-			if !ok || fd.Body == nil {
-				continue
-			}
-			stores := c11Stores(pkg.TypesInfo, fd, fields, whole)
-			f := flow.NewFunc(pkg, fd)
-			var pubs []*ast.CallExpr
-			for _, call := range calls(fd.Body, true) {
-				if c11FieldCall(f, call, instF, "Store") {
-					pubs = append(pubs, call)
-				}
-			}
-			if len(stores) == 0 && len(pubs) == 0 {
-				continue
-			}
-			name := declName(pkg, fd)
-			nStores += len(stores)
-			nPub += len(pubs)
-			c.Count("functions_analysed", 1)
-			res := analyze(c, f, flow.Config{NoHavoc: true, Track: func(string) bool { return false },
-				OnCall: func(st *flow.State, call *ast.CallExpr, callee types.Object, deferred bool) {
-					if c11FieldCall(f, call, instF, "Store") && len(call.Args) == 1 {
-						st.Set("ev:pub:"+f.Render(call.Args[0]), flow.True)
-						st.Set("ev:pub", flow.True)
-					}
-				}})
-			if res == nil {
-				continue
-			}
-			for _, s := range stores {
-				what := "a generation object"
-				if s.field != nil {
-					what = fields[s.field]
-				}
-				cons := c11Uniq(c, "R-C11-2", name+"|store to "+what)
-				switch {
-				case s.lit != nil:
-					c.Undecide("R-C11-2", cons, pos(c, s.stmt), "store inside a function literal: cannot order it against the publication")
-				case s.root == nil || !(c11FreshLocal(pkg.TypesInfo, fd.Body, f.Info.Uses[s.root]) || c11LocalValueStore(pkg.TypesInfo, fd.Body, s.lhs)):
-					c.Violate("R-C11-2", cons, pos(c, s.stmt),
-						sprintf("%s is assigned through %q, which is not an object freshly created in this function: a published router generation is modified in place while requests that loaded it are running (they see a mix of old and new rules/options)", what, types.ExprString(s.lhs)))
-				default:
-					var bad *flow.State
-					for _, st := range res.At[s.stmt] {
-						if st.Is("ev:pub:"+f.Render(s.root), flow.True) {
-							bad = st
-							break
-						}
-					}
-					c.Check(bad == nil, "R-C11-2", cons, pos(c, s.stmt),
-						sprintf("written on the new, not yet published instance (%d states)", len(res.At[s.stmt])),
-						sprintf("%s is written after the instance has been published with mux.inst.Store: requests already see the new generation while it is still being built", what), witness(bad)...)
-				}
-			}
-			for _, p := range pubs {
-				cons := c11Uniq(c, "R-C11-2", name+"|published value")
-				arg := ast.Unparen(p.Args[0])
-				fresh := c11IsFreshExpr(pkg.TypesInfo, arg)
-				if id, ok := arg.(*ast.Ident); ok {
-					fresh = c11FreshLocal(pkg.TypesInfo, fd.Body, f.Info.Uses[id])
-				}
-				if ue, ok := arg.(*ast.UnaryExpr); ok && ue.Op == token.AND {
-					// &local of a struct-valued local: its own storage
-					if id, ok := ast.Unparen(ue.X).(*ast.Ident); ok {
-						if v, ok := f.Info.Uses[id].(*types.Var); ok && !v.IsField() && fd.Body.Pos() <= v.Pos() && v.Pos() < fd.Body.End() {
-							if _, isStruct := v.Type().Underlying().(*types.Struct); isStruct {
-								fresh = true
-							}
-						}
-					}
-				}
-				c.Check(fresh, "R-C11-2", cons, pos(c, p),
-					"mux.inst.Store publishes an instance created in this function",
-					"mux.inst.Store publishes a value that is not a freshly built *muxInstance (nil or an instance shared with an older generation)")
-			}
-			if len(pubs) > 0 {
-				var bad *flow.Exit
-				for _, ex := range res.Exits {
-					if ex.Kind == flow.ExitReturn && !ex.State.Is("ev:pub", flow.True) {
-						bad = ex
-						break
-					}
-				}
-				var w []string
-				if bad != nil {
-					w = witness(bad.State)
-				}
-				c.Check(bad == nil, "R-C11-2", name+"|every return publishes the new generation", pos(c, pubs[0]),
-					sprintf("%d exits, all after mux.inst.Store", len(res.Exits)),
-					"the function can return without storing the new instance: the update is reported as applied but new requests keep seeing the old generation", w...)
+	decls := c11DeclOf(pkg)
+	sites, escapes := c11CallIndex(pkg, decls)
+	infos := map[*ast.FuncDecl]*c11FnInfo{}
+	get := func(fd *ast.FuncDecl) *c11FnInfo {
+		if fi := infos[fd]; fi != nil {
+			return fi
+		}
+		fi := &c11FnInfo{fd: fd, f: flow.NewFunc(pkg, fd)}
+		fi.stores = c11Stores(info, fd, fields, whole)
+		for _, call := range calls(fd.Body, true) {
+			if c11FieldCall(fi.f, call, instF, "Store") {
+				fi.pubs = append(fi.pubs, call)
 			}
 		}
+		infos[fd] = fi
+		return fi
 	}
-	c11RuntimeReload(c)
+	run := func(fi *c11FnInfo) *flow.Result {
+		if fi.ran {
+			return fi.res
+		}
+		fi.ran = true
+		c.Count("functions_analysed", 1)
+		f := fi.f
+		fi.res = analyze(c, f, flow.Config{NoHavoc: true, Track: func(string) bool { return false },
+			OnCall: func(st *flow.State, call *ast.CallExpr, callee types.Object, deferred bool) {
+				if c11FieldCall(f, call, instF, "Store") && len(call.Args) == 1 {
+					st.Set("ev:pub:"+f.Render(call.Args[0]), flow.True)
+					st.Set("ev:pub", flow.True)
+				}
+			}})
+		return fi.res
+	}
+	// publishedAt: some state reaching node n has already published the variable id
+	publishedAt := func(fi *c11FnInfo, n ast.Node, id *ast.Ident) (*flow.State, int) {
+		res := run(fi)
+		if res == nil {
+			return nil, 0
+		}
+		for _, st := range res.At[n] {
+			if st.Is("ev:pub:"+fi.f.Render(id), flow.True) {
+				return st, len(res.At[n])
+			}
+		}
+		return nil, len(res.At[n])
+	}
+
+	// builder: fd assigns through its receiver / idx-th parameter; that is construction iff every
+	// call site hands it a fresh, not yet published object (or the caller is such a helper itself).
+	// verdict: 1 ok, 0 violated, -1 cannot tell.
+	var builder func(fd *ast.FuncDecl, idx int, depth int, seen map[*ast.FuncDecl]bool) (int, string)
+	builder = func(fd *ast.FuncDecl, idx int, depth int, seen map[*ast.FuncDecl]bool) (int, string) {
+		obj, _ := info.Defs[fd.Name].(*types.Func)
+		if obj == nil || depth > 3 || seen[fd] {
+			return -1, "helper chain too deep"
+		}
+		seen[fd] = true
+		defer delete(seen, fd)
+		if escapes[obj] {
+			return -1, declName(pkg, fd) + " is also used as a function value: its callers cannot be enumerated"
+		}
+		if fd.Name.IsExported() && (fd.Recv == nil || ast.IsExported(c11RecvName(obj))) {
+			return -1, declName(pkg, fd) + " is exported: it may be called on a published object from another package"
+		}
+		ss := sites[obj]
+		if len(ss) == 0 {
+			return -1, declName(pkg, fd) + " has no static caller"
+		}
+		var callers []string
+		for _, s := range ss {
+			var arg ast.Expr
+			if idx < 0 {
+				arg = c11Recv(s.call)
+			} else if idx < len(s.call.Args) {
+				arg = s.call.Args[idx]
+			}
+			where := declName(pkg, s.caller) + " at " + pos(c, s.call)
+			id, ok := ast.Unparen(arg).(*ast.Ident)
+			if !ok {
+				if arg != nil && c11IsFreshExprD(info, decls, arg, 0) {
+					callers = append(callers, declName(pkg, s.caller))
+					continue
+				}
+				return 0, "the caller " + where + " passes an expression that is not a freshly created object"
+			}
+			o := info.Uses[id]
+			switch {
+			case c11FreshLocalD(info, decls, s.caller.Body, o, 0):
+				if s.inLit {
+					return -1, "the call in " + where + " is inside a function literal: it cannot be ordered against the publication"
+				}
+				if st, n := publishedAt(get(s.caller), s.call, id); st != nil {
+					return 0, "the caller " + where + " calls it after the instance has been published with Store"
+				} else if n == 0 {
+					return -1, "the call in " + where + " is not reached by the flow analysis"
+				}
+				callers = append(callers, declName(pkg, s.caller))
+			default:
+				if j, ok := c11ParamIndex(info, s.caller, o); ok {
+					v, why := builder(s.caller, j, depth+1, seen)
+					if v != 1 {
+						return v, why
+					}
+					callers = append(callers, declName(pkg, s.caller))
+				} else {
+					return 0, "the caller " + where + " passes " + id.Name + ", which is not an object freshly created there (a published generation)"
+				}
+			}
+		}
+		return 1, "callers: " + strings.Join(callers, ", ")
+	}
+
+	nStores, nPub := 0, 0
+	var fds []*ast.FuncDecl
+	for _, fd := range decls {
+		fds = append(fds, fd)
+	}
+	sort.Slice(fds, func(i, j int) bool { return fds[i].Pos() < fds[j].Pos() })
+	for _, fd := range fds {
+		fi := get(fd)
+		if len(fi.stores) == 0 && len(fi.pubs) == 0 {
+			continue
+		}
+		f := fi.f
+		name := declName(pkg, fd)
+		nStores += len(fi.stores)
+		nPub += len(fi.pubs)
+		res := run(fi)
+		if res == nil {
+			continue
+		}
+		for _, s := range fi.stores {
+			what := "a generation object"
+			if s.field != nil {
+				what = fields[s.field]
+			}
+			cons := c11Uniq(c, "R-C11-2", name+"|store to "+what)
+			inPlace := sprintf("%s is assigned through %q, which is not an object freshly created in this function: a published router generation is modified in place while requests that loaded it are running (they see a mix of old and new rules/options)", what, types.ExprString(s.lhs))
+			var rootObj types.Object
+			if s.root != nil {
+				rootObj = f.Info.Uses[s.root]
+			}
+			fresh := s.root != nil && (c11FreshLocalD(info, decls, fd.Body, rootObj, 0) || c11LocalValueStore(info, fd.Body, s.lhs))
+			switch {
+			case s.lit != nil:
+				c.Undecide("R-C11-2", cons, pos(c, s.stmt), "store inside a function literal: cannot order it against the publication")
+			case fresh:
+				bad, n := publishedAt(fi, s.stmt, s.root)
+				c.Check(bad == nil, "R-C11-2", cons, pos(c, s.stmt),
+					sprintf("written on the new, not yet published instance (%d states)", n),
+					sprintf("%s is written after the instance has been published with Store: requests already see the new generation while it is still being built", what), witness(bad)...)
+			default:
+				idx, isParam := c11ParamIndex(info, fd, rootObj)
+				if !isParam {
+					c.Violate("R-C11-2", cons, pos(c, s.stmt), inPlace)
+					break
+				}
+				if bad, _ := publishedAt(fi, s.stmt, s.root); bad != nil {
+					c.Violate("R-C11-2", cons, pos(c, s.stmt), sprintf("%s is written after the helper itself published the instance with Store", what), witness(bad)...)
+					break
+				}
+				v, why := builder(fd, idx, 0, map[*ast.FuncDecl]bool{})
+				switch v {
+				case 1:
+					c.Discharge("R-C11-2", cons, pos(c, s.stmt), "construction helper: every call site hands it a freshly created instance before that instance is published ("+why+")")
+				case 0:
+					c.Violate("R-C11-2", cons, pos(c, s.stmt), inPlace+" — "+why)
+				default:
+					c.Undecide("R-C11-2", cons, pos(c, s.stmt), "cannot tell whether "+s.root.Name+" is still private when this helper runs: "+why)
+				}
+			}
+		}
+		for _, p := range fi.pubs {
+			cons := c11Uniq(c, "R-C11-2", name+"|published value")
+			arg := ast.Unparen(p.Args[0])
+			fresh := c11IsFreshExprD(info, decls, arg, 0)
+			if id, ok := arg.(*ast.Ident); ok {
+				fresh = c11FreshLocalD(info, decls, fd.Body, f.Info.Uses[id], 0)
+			}
+			if ue, ok := arg.(*ast.UnaryExpr); ok && ue.Op == token.AND {
+				// &local of a struct-valued local: its own storage
+				if id, ok := ast.Unparen(ue.X).(*ast.Ident); ok {
+					if v, ok := f.Info.Uses[id].(*types.Var); ok && !v.IsField() && fd.Body.Pos() <= v.Pos() && v.Pos() < fd.Body.End() {
+						if _, isStruct := v.Type().Underlying().(*types.Struct); isStruct {
+							fresh = true
+						}
+					}
+				}
+			}
+			c.Check(fresh, "R-C11-2", cons, pos(c, p),
+				"the generation Store publishes an instance created in this function",
+				"the generation Store publishes a value that is not a freshly built instance (nil or an instance shared with an older generation)")
+		}
+		if len(fi.pubs) > 0 {
+			var bad *flow.Exit
+			for _, ex := range res.Exits {
+				if ex.Kind == flow.ExitReturn && !ex.State.Is("ev:pub", flow.True) {
+					bad = ex
+					break
+				}
+			}
+			var w []string
+			if bad != nil {
+				w = witness(bad.State)
+			}
+			c.Check(bad == nil, "R-C11-2", name+"|every return publishes the new generation", pos(c, fi.pubs[0]),
+				sprintf("%d exits, all after the generation Store", len(res.Exits)),
+				"the function can return without storing the new instance: the update is reported as applied but new requests keep seeing the old generation", w...)
+		}
+	}
+	c11RuntimeReload(c, r, decls, sites)
 	c.RequireCount("R-C11-2", "stores through fields of muxInstance/muxRule/MuxPath/route", nStores, 2)
 	c.RequireCount("R-C11-2", "mux.inst.Store publication sites", nPub, 2)
 }
 
-// c11RuntimeReload: every update event reaches the router — on every returning path of
-// runtime.reload the mux has been reloaded exactly once.
-func c11RuntimeReload(c *core.Ctx) {
-	f := fn(c, hs, "runtime", "reload")
-	muxReload := c11MethodObj(c, hs, "mux", "reload")
-	if f == nil || muxReload == nil {
-		return
-	}
-	n := 0
-	for _, call := range calls(f.Body, true) {
-		if f.Callee(call) == muxReload {
-			n++
-		}
-	}
-	cons := fname(hs, "runtime", "reload") + "|router reloaded on every update"
-	if n == 0 {
-		c.Violate("R-C11-2", cons, pos(c, f.Body), "runtime.reload never calls mux.reload: rule/option updates are not applied to the router")
-		return
-	}
-	res := analyze(c, f, flow.Config{NoHavoc: true, Track: func(string) bool { return false },
-		OnCall: func(st *flow.State, call *ast.CallExpr, callee types.Object, deferred bool) {
-			if callee == muxReload {
-				c11Bump(st, "ev:reload")
-			}
-		}})
-	if res == nil {
-		return
-	}
-	var bad *flow.Exit
-	why := ""
-	for _, ex := range res.Exits {
-		if ex.Kind != flow.ExitReturn {
+// c11RuntimeReload: every update event reaches the router — on every returning path of the
+// function(s) that call the mux's reload (the method of the mux that publishes a new
+// generation), the mux has been reloaded exactly once.
+func c11RuntimeReload(c *core.Ctx, r *c11Router, decls map[*types.Func]*ast.FuncDecl, sites map[*types.Func][]c11CallSite) {
+	pkg := r.pkg
+	// role: methods of the mux type that Store a new generation
+	var reloads []*types.Func
+	for o, fd := range decls {
+		if c11RecvName(o) != r.muxT.Obj().Name() {
 			continue
 		}
-		switch {
-		case !ex.State.Is("ev:reload:1", flow.True):
-			bad, why = ex, "runtime.reload can return without reloading the router: the update is applied to the server options but new requests are still routed by the old generation"
-		case ex.State.Is("ev:reload:2", flow.True):
-			bad, why = ex, "the router is reloaded twice for one update"
+		f := flow.NewFunc(pkg, fd)
+		for _, call := range calls(fd.Body, true) {
+			if c11FieldCall(f, call, r.instF, "Store") {
+				reloads = append(reloads, o)
+				break
+			}
 		}
+	}
+	if len(reloads) == 0 {
+		c.Errorf("R-C11-2: anchor: no method of %s publishes a new generation", r.muxT.Obj().Name())
+		return
+	}
+	isReload := func(o types.Object) bool {
+		for _, m := range reloads {
+			if o == m {
+				return true
+			}
+		}
+		return false
+	}
+	callers := map[*ast.FuncDecl]bool{}
+	for _, m := range reloads {
+		for _, s := range sites[m] {
+			callers[s.caller] = true
+		}
+	}
+	if len(callers) == 0 {
+		c.Violate("R-C11-2", hs+".runtime|router reloaded on every update", c.Prog.Rel(reloads[0].Pos()), "nothing calls the mux's reload: rule/option updates are not applied to the router")
+		return
+	}
+	var fds []*ast.FuncDecl
+	for fd := range callers {
+		fds = append(fds, fd)
+	}
+	sort.Slice(fds, func(i, j int) bool { return fds[i].Pos() < fds[j].Pos() })
+	for _, fd := range fds {
+		cnt := c11NewCounter(c, pkg, map[*types.Func]*ast.FuncDecl{}, func(g *flow.Func, call *ast.CallExpr) bool { return isReload(g.Callee(call)) })
+		f := flow.NewFunc(pkg, fd)
+		cons := declName(pkg, fd) + "|router reloaded on every update"
+		res := analyze(c, f, flow.Config{NoHavoc: true, Track: func(string) bool { return false },
+			OnCall: func(st *flow.State, call *ast.CallExpr, callee types.Object, deferred bool) {
+				if cnt.isEvent(f, call) {
+					c11Bump(st, "ev:reload")
+				}
+			}})
+		if res == nil {
+			continue
+		}
+		var bad *flow.Exit
+		why := ""
+		for _, ex := range res.Exits {
+			if ex.Kind != flow.ExitReturn {
+				continue
+			}
+			switch {
+			case !ex.State.Is("ev:reload:1", flow.True):
+				bad, why = ex, "the update handler can return without reloading the router: the update is applied to the server options but new requests are still routed by the old generation"
+			case ex.State.Is("ev:reload:2", flow.True):
+				bad, why = ex, "the router is reloaded twice for one update"
+			}
+			if bad != nil {
+				break
+			}
+		}
+		var w []string
 		if bad != nil {
-			break
+			w = witness(bad.State)
 		}
+		c.Check(bad == nil, "R-C11-2", cons, pos(c, fd.Name), sprintf("%d exits, each after exactly one reload of the mux", len(res.Exits)), why, w...)
 	}
-	var w []string
-	if bad != nil {
-		w = witness(bad.State)
-	}
-	c.Check(bad == nil, "R-C11-2", cons, pos(c, f.Body), sprintf("%d exits, each after exactly one mux.reload", len(res.Exits)), why, w...)
 }
